@@ -9,8 +9,15 @@ R28c Aggregator.shutdown stores every engine of the map (loop over the map conta
 R28d RecentEngineRepository.store_recent_engine writes run_id/run_started from run_data under
      has_run() and None otherwise (so a restored engine continues exactly when a run was active).
 R28e tag_values_changed persists under the run id of engine_data.run_data (the restored id).
-Decides the restore/store structure; crash points without shutdown and message arrival order are
-outside static reach.
+R28f the stored run id follows the run: the recent-engine row is what a restarted aggregator reloads the active run from. In
+     FromEngine.run_started and run_stopped every change of engine_data.run_data (assignment / reset_run()) is followed on every
+     normal path to the exit by store_recent_engine - written only on disconnect and shutdown the row is missing after a crash (the
+     run is not continued, its tags are skipped, it is never stored) or stale after a run has ended (the finished run is
+     resurrected and stored a second time; the next run's tags go into its plot log).
+R28g a snapshot belongs to the run: every TagsUpdatedMsg the engine builds gets its run_id from the builder's caller, and every call
+     of a tag-update builder in EngineRunner passes the runner's run id - the steady-state snapshot takes the pending updates off the
+     queue, and the aggregator skips a message without run id while a run is active (and still answers success).
+Decides the restore/store structure; message arrival order is outside static reach.
 """
 from __future__ import annotations
 
@@ -225,3 +232,62 @@ def run(ctx) -> None:
                 ctx.ok("R28e", inst)
             else:
                 ctx.fail("R28e", fn, c, inst, "tag data is not recorded under the current (restored) run's id")
+
+    # ---- R28f
+    ctx.rule("R28f", "the recent-engine row is written whenever the active run changes")
+    for fname in ("run_started", "run_stopped"):
+        f = prog.func(f"{FE}.{fname}")
+        ctx.analysed(f)
+        g = cfg_of(f)
+        changes = [n for n in g.nodes if n.ast is not None and (any(call_attr(c) == "reset_run" for c in n.calls()) or (
+            n.kind == "stmt" and any(t.attr == "run_data" for t, v, st in assigned_attrs(n.ast))))]
+        if not changes:
+            raise AnchorError(f"{fname}: no change of run_data found")
+        inst = f"{fname}: every change of the active run is followed by store_recent_engine"
+        bad = None
+        for ch in changes:
+            p = g.path_to_exit_avoiding([ch.id], lambda n: node_calls(n, "store_recent_engine"), follow_exc=False)
+            if p is not None and bad is None:
+                bad = (ch, p)
+        if bad is None:
+            ctx.ok("R28f", inst)
+        else:
+            ctx.fail("R28f", f, bad[0].ast, inst, "the run changes but the recent-engine row keeps what it had: after run_started a crash of the "
+                     "aggregator (no disconnect handler, no shutdown) leaves no run id to reload - the restarted aggregator does not continue "
+                     "the run, skips its tag messages and never stores it; after run_stopped the row still names the finished run - a restart "
+                     "resurrects it, stores it a second time and records the next run's tags in its plot log", bad[1])
+    # ---- R28g
+    ctx.rule("R28g", "every tag-update message the engine builds carries the runner's run id")
+    mb = prog.cls("openpectus.engine.engine_message_builder:EngineMessageBuilder")
+    builders = []
+    for m in mb.methods.values():
+        for c in walk_no_nested(m.node):
+            if isinstance(c, ast.Call) and norm(c.func).endswith("TagsUpdatedMsg"):
+                ctx.analysed(m)
+                builders.append(m.name)
+                rid = next((k.value for k in c.keywords if k.arg == "run_id"), None)
+                params = [a.arg for a in m.node.args.args]
+                inst = f"EngineMessageBuilder.{m.name}: TagsUpdatedMsg(run_id=<parameter>)"
+                if isinstance(rid, ast.Name) and rid.id in params:
+                    ctx.ok("R28g", inst)
+                else:
+                    ctx.fail("R28g", m, c, inst, "the message is built without the run id: the steady-state snapshot after a reconnect carries the "
+                             "pending tag updates (a value that changed during the outage) with run_id=None; the aggregator skips it ('belongs to run "
+                             "None but the current run is R'), answers success, and the value never reaches the run's plot log")
+    if len(builders) < 2:
+        raise AnchorError(f"only {len(builders)} TagsUpdatedMsg constructions found in EngineMessageBuilder (floor 2)")
+    er = prog.cls("openpectus.engine.engine_runner:EngineRunner")
+    n_calls = 0
+    for m in er.methods.values():
+        for c in walk_no_nested(m.node):
+            if isinstance(c, ast.Call) and call_attr(c) in builders:
+                n_calls += 1
+                ctx.analysed(m)
+                inst = f"EngineRunner.{m.name}: {norm(c)[:70]} passes self.run_id"
+                args = [norm(a) for a in c.args] + [norm(k.value) for k in c.keywords if k.arg == "run_id"]
+                if "self.run_id" in args:
+                    ctx.ok("R28g", inst)
+                else:
+                    ctx.fail("R28g", m, c, inst, "the builder is called without the runner's run id: the message goes out with run_id=None")
+    if n_calls < 3:
+        raise AnchorError(f"only {n_calls} tag-update builder calls found in EngineRunner (floor 3)")
